@@ -563,6 +563,7 @@ type SpecSet struct {
 	Ifaces     map[string]*IfaceContract
 	Lemmas     []*Lemma
 	Codecs     map[string]*CodecDecl // key: pkgpath + "::" + type name
+	CodecFns   map[string]*CodecDecl // key: pkgpath + "::" + function name (encoder and decoder functions)
 }
 
 // CodecDecl: "codec T wf P eq Q by F" - the round trip of type T's Encode/Decode methods is proved by the lemma function F:
@@ -570,7 +571,9 @@ type SpecSet struct {
 // exactly what was written. In the lemma functions of other types (token model) a nested T is therefore one summary token.
 type CodecDecl struct {
 	Type, WF, Eq, By string
+	Enc, Dec         string // codecfn: names of the encoder and decoder functions
 	Pkg              string
+	Rejects          bool // set from the lemma's contract: its "fails only if" clause mentions rejected(r)
 	MayReject        bool // the lemma has no "fails only if the reader fails" clause: the decoder may refuse (resolver, validating constructor)
 }
 
@@ -591,7 +594,7 @@ var clauseKeywords = map[string]bool{
 	"pred": true, "ghost": true, "axiom": true, "func": true, "requires": true, "ensures": true,
 	"modifies": true, "loop": true, "invariant": true, "inline": true, "trusted": true, "bounded": true,
 	"interface": true, "global": true, "assume": true, "trustedensures": true, "lemma": true, "panics": true, "pure": true,
-	"method": true, "end": true, "results": true, "unroll": true, "envassume": true, "noframe": true, "sealed": true, "callsite": true, "cutafter": true, "inlines": true, "record": true, "tokenmodel": true, "codec": true,
+	"method": true, "end": true, "results": true, "unroll": true, "envassume": true, "noframe": true, "sealed": true, "callsite": true, "cutafter": true, "inlines": true, "record": true, "tokenmodel": true, "codec": true, "codecfn": true,
 }
 
 // ParseContractText parses the //@ lines of a contract file.
@@ -706,6 +709,25 @@ func (ss *SpecSet) ParseContractText(pkgPath, file, text string) error {
 				ss.Codecs = map[string]*CodecDecl{}
 			}
 			ss.Codecs[pkgPath+"::"+f[0]] = &CodecDecl{Type: f[0], WF: f[2], Eq: f[4], By: f[6], Pkg: pkgPath, MayReject: mayReject}
+			cur, curLoop = nil, nil
+		case "codecfn":
+			// codecfn ENC DEC wf P eq Q by F [mayreject]: like codec, for an encoder/decoder pair of package functions
+			// ENC(w, v) / DEC(r, &v) where the decoder fills the elements of the slice it is given
+			f := strings.Fields(rest)
+			mayReject := false
+			if len(f) == 9 && f[8] == "mayreject" {
+				mayReject = true
+				f = f[:8]
+			}
+			if len(f) != 8 || f[2] != "wf" || f[4] != "eq" || f[6] != "by" {
+				return fmt.Errorf("%s:%d: codecfn needs 'ENC DEC wf P eq Q by F [mayreject]'", file, c.n)
+			}
+			if ss.CodecFns == nil {
+				ss.CodecFns = map[string]*CodecDecl{}
+			}
+			cd := &CodecDecl{Type: f[0], Enc: f[0], Dec: f[1], WF: f[3], Eq: f[5], By: f[7], Pkg: pkgPath, MayReject: mayReject}
+			ss.CodecFns[pkgPath+"::"+f[0]] = cd
+			ss.CodecFns[pkgPath+"::"+f[1]] = cd
 			cur, curLoop = nil, nil
 		case "sealed":
 			// closed-world interface: its implementations are exactly the types of the loaded repository packages that implement it
